@@ -143,7 +143,7 @@ pub fn fasta_record(rec: &fasta::RefRecord, o: &RecObs, ctx: &mut MonCtx) {
 }
 
 pub fn sink_script(seed: u64) -> Vec<u32> {
-    let mut r = vcore::Rng::new(seed);
+    let r = vcore::Rng::new(seed);
     match r.below(4) {
         0 => vec![],
         1 => vec![1],
